@@ -53,7 +53,8 @@ class Job:
     def __init__(self, id, props, harness, entry, enforce=None, replace=(), loops=True,
                  defs=(), cflags=(), cbmc=(), timeout=900, must_have=(), tier="quick",
                  unwind=None, replay=None, functions=(), note="", solver=None, bounded=None,
-                 expect_fail=(), nondet_static=True, mem_gb=None):
+                 expect_fail=(), nondet_static=True, mem_gb=None, quick_only_for=()):
+        self.quick_only_for = set(quick_only_for)  # if non-empty: part of the quick tier only for these properties
         self.mem_gb = mem_gb  # None: default 14 GB; larger values run one at a time
         self.id = id
         self.props = list(props)
@@ -89,7 +90,7 @@ def run_job(job, tree, trace=False):
            "reason": "", "solver": (job.solver or DEFAULT_SOLVER)[-1] if (job.solver or DEFAULT_SOLVER) else "minisat"}
     t_all = time.time()
     cc = ["goto-cc", "-I" + tree, "-I" + tree + "/include", "-I" + tree + "/src",
-          "-I" + tree + "/examples", "-std=c99", "-DSKINNY_C_VERIF=1", "--function", job.entry] + \
+          "-I" + tree + "/examples", "-std=c99", "--function", job.entry] + \
         ["-D" + d for d in job.defs] + job.cflags + [os.path.join(tree, "harness", job.harness), "-o", a]
     rc, _ = sh(cc, tree, 300, log)
     if rc != 0:
@@ -100,15 +101,29 @@ def run_job(job, tree, trace=False):
         gi = ["goto-instrument", "--dfcc", job.entry]
         if job.enforce:
             gi += ["--enforce-contract", job.enforce]
-        for r in job.replace:
-            gi += ["--replace-call-with-contract", r]
-        if job.loops:
-            gi += ["--apply-loop-contracts"]
-        gi += [a, b]
-        rc, _ = sh(gi, tree, 600, log)
+        # a callee that the (changed) code no longer calls cannot be replaced: goto-instrument aborts with
+        # "Function to replace 'f' not found"; drop that target and try again - the remaining contracts and the
+        # enforced function's own contract still decide
+        replace = list(job.replace)
+        for _attempt in range(len(replace) + 1):
+            cmd = [x for x in gi]
+            for r in replace:
+                cmd += ["--replace-call-with-contract", r]
+            if job.loops:
+                cmd += ["--apply-loop-contracts"]
+            cmd += [a, b]
+            rc, _ = sh(cmd, tree, 600, log)
+            if rc == 0:
+                break
+            m = re.findall(r"Function to replace '([^']+)' not found", open(log, errors="replace").read())
+            m = [x for x in m if x in replace]
+            if not m:
+                break
+            replace.remove(m[-1])
         if rc != 0:
             out["reason"] = "goto-instrument failed (rc %s)" % rc
             return out
+        out["dropped_replacements"] = [r for r in job.replace if r not in replace]
         cur = b
     cb = ["cbmc"] + CBMC_CHECKS + (job.solver if job.solver is not None else DEFAULT_SOLVER) + job.cbmc
     if job.unwind:
@@ -245,7 +260,8 @@ def run_check(prop, jobs, tier, replay_fn=None, extra_assumptions=(), level_text
             print("UNDECIDED property=%s reason=extraction-break (mktree rc %d)" % (prop, rc))
             write_evidence(prop, tier, seed, [], [], time.time() - t0, ["extraction break"], level_text, undecided=["mktree"])
             return 2
-        sel = [j for j in jobs if prop in j.props and (tier == "thorough" or j.tier == "quick")]
+        sel = [j for j in jobs if prop in j.props and (tier == "thorough" or (j.tier == "quick" and
+               (not j.quick_only_for or prop in j.quick_only_for or prop == "ALL")))]
         nw = int(os.environ.get("VERIF_JOBS", "16"))
         with cf.ThreadPoolExecutor(max_workers=nw) as ex:
             outs = list(ex.map(lambda j: run_job(j, tree), sel))
@@ -310,13 +326,27 @@ def run_check(prop, jobs, tier, replay_fn=None, extra_assumptions=(), level_text
                 fh.write("\n--- verifier output (tail) ---\n%s\n" % tr[-20000:])
             print("VIOLATION property=%s replay=%s%s" % (prop, rp, "" if found else " no-failing-input-found"))
             code = 1
+        for st in static_results:
+            if st.get("error"):
+                print("UNDECIDED property=%s job=static reason=%s" % (prop, st["error"]))
+                if code == 0:
+                    code = 2
+            elif st.get("violations"):
+                rp = os.path.join(HERE, "evidence", "replay", "%s_%s.txt" % (prop, st["job"]["job"]))
+                with open(rp, "w") as fh:
+                    fh.write("property: %s\njob: %s\n%s\nfailing facts on the real object files:\n" % (prop, st["job"]["job"], st["job"].get("note", "")))
+                    for v in st["violations"]:
+                        fh.write("  " + v + "\n")
+                print("VIOLATION property=%s replay=%s" % (prop, rp))
+                code = 1
         for (j, o) in undec:
             print("UNDECIDED property=%s job=%s reason=%s" % (prop, j.id, o["reason"]))
             if code == 0:
                 code = 2
         write_evidence(prop, tier, seed, sel, outs, time.time() - t0, list(extra_assumptions), level_text,
                        undecided=[j.id for j, _ in undec], violations=len(done_jobs),
-                       known=[k["id"] for (_, _, k) in kf], static_results=static_results)
+                       known=[k["id"] for (_, _, k) in kf], static_results=static_results,
+                       known_obligations=set((j.id, f["name"]) for (j, f, _) in kf))
         if code == 0:
             n = sum(len([r for r in o["results"] if "canary" not in r["desc"]]) for o in outs)
             print("OK property=%s tier=%s jobs=%d obligations=%d wall=%.0fs" % (prop, tier, len(sel), n, time.time() - t0))
@@ -338,7 +368,7 @@ TRUSTED = [
 
 
 def write_evidence(prop, tier, seed, sel, outs, wall, assumptions, level_text, undecided=(), violations=0,
-                   known=(), static_results=()):
+                   known=(), static_results=(), known_obligations=()):
     obligations = 0
     discharged = 0
     samples = []
@@ -346,7 +376,8 @@ def write_evidence(prop, tier, seed, sel, outs, wall, assumptions, level_text, u
     funcs = set()
     bounded = []
     for j, o in zip(sel, outs):
-        rs = [r for r in o.get("results", []) if "canary-reachable" not in r["desc"]]
+        # obligations matched by a listed known finding are reported separately, not counted as proof obligations
+        rs = [r for r in o.get("results", []) if "canary-reachable" not in r["desc"] and (j.id, r["name"]) not in known_obligations]
         obligations += len(rs)
         discharged += len([r for r in rs if r["status"] == "SUCCESS"])
         for r in rs[:1] + [r for r in rs if "postcondition" in r["name"] or "loop_invariant" in r["name"]][:2]:
@@ -361,6 +392,8 @@ def write_evidence(prop, tier, seed, sel, outs, wall, assumptions, level_text, u
         if j.bounded:
             bounded.append("%s: %s" % (j.id, j.bounded))
     for s in static_results:
+        if s.get("error"):
+            continue
         obligations += s["obligations"]
         discharged += s["discharged"]
         samples += s.get("samples", [])
@@ -376,6 +409,7 @@ def write_evidence(prop, tier, seed, sel, outs, wall, assumptions, level_text, u
             "bounded_stand_ins": bounded,
             "undecided_jobs": list(undecided),
             "known_findings_matched": sorted(set(known)),
+            "known_finding_obligations": sorted("%s: %s" % x for x in known_obligations),
             "samples": samples[:40],
             "explanation": level_text,
         },
